@@ -124,6 +124,9 @@ Definition make_btwb (cf : cfg) (M N a c : nat) (Br W Bc : mat) : mat :=
 
 (* ---- reset_diagonals: eigenvalues[:diff_order] = 0; repeat / tile *)
 Definition zero_first (d : Z) (v : vec) : vec := fun k => if (k <? d)%Z then t0 R else v k.
+(* the same zeroing done by MAGNITUDE instead of position ([small x] = "|x| < threshold"); NOT what
+   the source does -- kept to state precisely why position is the right criterion *)
+Definition zero_below (small : T -> bool) (v : vec) : vec := fun k => if small (v k) then t0 R else v k.
 Definition np_repeat (count : Z) (v : vec) : vec := fun k => v (k / count)%Z.
 Definition np_tile (len : Z) (v : vec) : vec := fun k => v (k mod len)%Z.
 Definition vscale (l : T) (v : vec) : vec := fun k => l * v k.
